@@ -159,6 +159,12 @@ func fbChildMain() {
 		}
 		fmt.Fprintf(out, "B %s\n", a[0])
 		out.Flush()
+		if a[1] == "jbig2mem" || a[1] == "jbig2ledger" { // memory-measured cases, see fb_pool.go
+			word, n, detail := fbChildPoolCase(fbHexDecode(a[4]), a[1] == "jbig2ledger")
+			fmt.Fprintf(out, "E %s %s %d 0 %s\n", a[0], word, n, detail)
+			out.Flush()
+			continue
+		}
 		word, n, leaked, detail := fbChildCase(a[1], a[2], fbAtoi(a[3]), fbHexDecode(a[4]))
 		fmt.Fprintf(out, "E %s %s %d %d %s\n", a[0], word, n, leaked, detail)
 		out.Flush()
@@ -507,7 +513,7 @@ func replayChild(input string) (bool, string) {
 func runFBChild(c *Ctx) {
 	r := c.R.Fork()
 	var cases, notes []string
-	var family []int // 0 synthetic JPEGs, 1 progressive scan floods, 2 JBIG2: one child batch each
+	var family []int // 0 synthetic JPEGs, 1 progressive scan floods, 2 JBIG2, 3 JBIG2 memory: one child batch each
 	note, fam := "", 0
 	add := func(kind, mode string, bound int, body []byte) {
 		cases = append(cases, fmt.Sprintf("%s %s %d %s", kind, mode, bound, hexWire(body)))
@@ -645,12 +651,28 @@ func runFBChild(c *Ctx) {
 		}
 		add(kind, "all", -1, page)
 	}
+	// JBIG2 memory accounting: structured streams, measured heap and pool ledger
+	fam = 3
+	for _, ps := range fbPoolSpecs(r, c.Thorough) {
+		body, err := ps.build()
+		if err != nil {
+			c.Violate("fb-hostile-child", "jbig2-seed", "cannot build the JBIG2 memory stream "+ps.String()+": "+err.Error(), "")
+			continue
+		}
+		total := 8<<20 + 1024*len(body)
+		note = fmt.Sprintf("[jbig2 memory %s: %d input bytes, budget %d, %d bytes stay alive if every round is decoded]", ps, len(body), total, ps.trueRetained())
+		add("jbig2ledger", "all", -1, body)
+		if ps.ri == 0 && !ps.extraDict && (c.Thorough || ps.rounds == 16) {
+			add("jbig2mem", "all", -1, body) // the same without the hook: heap sampling alone
+		}
+		c.Stat("pool_streams")
+	}
 	note = ""
 	c.StatN("child_cases", len(cases))
 	res := make([]fbChildResult, len(cases))
 	var wg sync.WaitGroup
-	var ms [3]int
-	for f := 0; f < 3; f++ { // the three families run in three children side by side
+	var ms [4]int
+	for f := 0; f < 4; f++ { // the families run in children side by side
 		wg.Add(1)
 		go func(f int) {
 			defer wg.Done()
@@ -684,6 +706,9 @@ func runFBChild(c *Ctx) {
 		if strings.HasPrefix(notes[i], "[progressive") {
 			kindWord = "prog"
 		}
+		if strings.HasPrefix(notes[i], "[jbig2 memory") && i < 4+len(cases) && c.rep != nil && len(c.rep.Samples) < 11 && rs.word != "" {
+			c.Sample(fmt.Sprintf("%s %s -> %s %s", kindWord, notes[i], rs.word, fbTruncStr(rs.detail)))
+		}
 		c.Stat("child_" + kindWord + "_" + rs.word)
 		in := cases[i]
 		if len(in) > 20000 {
@@ -703,6 +728,12 @@ func runFBChild(c *Ctx) {
 				key = "jbig2-halftone-empty-grid"
 			}
 			c.Violate("fb-hostile-child", key, rs.detail+" "+notes[i], in)
+		case "overbudget":
+			c.Violate("fb-hostile-child", "memory-beyond-budget", "retained heap exceeds the stream budget: "+rs.detail+" "+notes[i], in)
+		case "accounting":
+			c.Violate("fb-hostile-child", "budget-accounting", "retained heap exceeds what the decoder charged to the budget: "+rs.detail+" "+notes[i], in)
+		case "ledger":
+			c.Violate("fb-hostile-child", "pool-ledger", rs.detail+" "+notes[i], in)
 		case "overwork":
 			c.Violate("fb-hostile-child", "work-not-proportional", rs.detail+" "+notes[i], in)
 		case "nochild":
